@@ -373,6 +373,9 @@ class DensityMatrix(NeuralStateBase):
 
     @staticmethod
     def autoload(location, gpu=False):
+        # `location` may be an open file object: remember where the data starts so
+        # that it can be read a second time by `load` below
+        start = location.tell() if hasattr(location, "seek") else None
         state_dict = torch.load(location)
         nn_state = DensityMatrix(
             unitary_dict=state_dict["unitary_dict"],
@@ -381,5 +384,7 @@ class DensityMatrix(NeuralStateBase):
             num_aux=len(state_dict["rbm_am"]["aux_bias"]),
             gpu=gpu,
         )
+        if start is not None:
+            location.seek(start)
         nn_state.load(location)
         return nn_state
